@@ -356,6 +356,9 @@ func (c *clientHello) parseExtensions() error {
 			//                   Empty;
 			//           };
 			//        } ECHClientHello;
+			if c.echExt != nil {
+				return fmt.Errorf("%w: more than one ech extension", ErrIllegalParameter)
+			}
 			c.echExt = &echExt{}
 
 			if !data.ReadUint8(&c.echExt.Type) { // type
@@ -386,6 +389,11 @@ func (c *clientHello) parseExtensions() error {
 					return fmt.Errorf("%w: ech ext payload", ErrDecodeError)
 				}
 				c.echExt.Payload = slices.Clone(v)
+			}
+			// The payload must be the last field: marshalAAD zeroes the
+			// last len(payload) bytes of the extension.
+			if !data.Empty() {
+				return fmt.Errorf("%w: ech ext trailing data", ErrDecodeError)
 			}
 		}
 	}
